@@ -129,7 +129,7 @@ func runReplays(propID string, reqs []replayReq) []replayRes {
 					fa, fb := candFns(reqs[i].label)
 					r.outcome = fmt.Sprintf("race detector: %d report(s), none between %s and %s", len(o.races), fa, fb)
 					for _, rp := range o.races {
-						if (inStack(rp[0], fa) && inStack(rp[1], fb)) || (inStack(rp[0], fb) && inStack(rp[1], fa)) {
+						if reportMatches(rp, fa, fb) {
 							r.reproduced = true
 							r.outcome = fmt.Sprintf("race detector reports a data race between %s and %s", fa, fb)
 						}
@@ -200,7 +200,11 @@ func raceReports(out string) [][2][]string {
 						break
 					}
 					if strings.HasSuffix(f, ")") && !strings.HasPrefix(f, "/") {
-						st = append(st, normFn(f))
+						if strings.HasPrefix(f, "sync/atomic.") {
+							st = append(st, "sync/atomic")
+						} else {
+							st = append(st, normFn(f))
+						}
 					}
 				}
 				stacks = append(stacks, st)
@@ -230,6 +234,19 @@ func candFns(label string) (string, string) {
 		return normFn(x)
 	}
 	return cut(parts[0]), cut(parts[1])
+}
+
+// reportMatches: the race report is between the two functions of the candidate.  The detector
+// rebuilds the stack of an access from function-entry events, and a leaf function whose only
+// call is the sync/atomic operation (a one-line accessor) does not appear in it: a stack whose
+// innermost frame is sync/atomic stands for such an accessor when the other function matches.
+func reportMatches(rp [2][]string, fa, fb string) bool {
+	in := func(st []string, f string) bool {
+		return inStack(st, f) || (len(st) > 0 && st[0] == "sync/atomic" && !inStack(st, fa) && !inStack(st, fb))
+	}
+	exact := func(i int, f string) bool { return inStack(rp[i], f) }
+	return (exact(0, fa) && in(rp[1], fb)) || (exact(1, fa) && in(rp[0], fb)) ||
+		(exact(0, fb) && in(rp[1], fa)) || (exact(1, fb) && in(rp[0], fa))
 }
 
 func inStack(st []string, f string) bool {
@@ -363,7 +380,10 @@ func nativeReplayOpt(dir, harness string, paths []string, race bool) (map[string
 	os.WriteFile(ovPath, ob, 0o644)
 	targs := []string{"test", "-tags=" + tags, "-modfile=" + modfile, "-vet=off", "-count=1", "-timeout=300s", "-run", "^TestVerifReplay$", "-overlay", ovPath, "-v"}
 	if race {
-		targs = append(targs, "-race")
+		// no inlining in the package under test: the race detector rebuilds the stack of the
+		// earlier access from function-entry events, so an inlined accessor (a one-line atomic
+		// wrapper) would be missing from the report and the pair could not be matched
+		targs = append(targs, "-race", "-gcflags=-l")
 	}
 	targs = append(targs, ".")
 	cmd := exec.Command("go", targs...)
@@ -464,12 +484,24 @@ func cmdReplay(args []string) int {
 		fmt.Println(err)
 		return 2
 	}
-	outs, e := nativeReplay(rf.Dir, rf.Harness, []string{args[0]})
+	outs, e := nativeReplayOpt(rf.Dir, rf.Harness, []string{args[0]}, rf.Kind == "race")
 	if e != "" {
 		fmt.Println("replay failed:", e)
 		return 2
 	}
 	o := outs[args[0]]
+	if rf.Kind == "race" {
+		// a race candidate replays under the race detector: reproduced iff it reports the pair
+		fa, fb := candFns(rf.Label)
+		o.reproduced = false
+		o.outcome = fmt.Sprintf("race detector: %d report(s), none between %s and %s", len(o.races), fa, fb)
+		for _, rp := range o.races {
+			if reportMatches(rp, fa, fb) {
+				o.reproduced = true
+				o.outcome = fmt.Sprintf("race detector reports a data race between %s and %s", fa, fb)
+			}
+		}
+	}
 	fmt.Printf("entry=%s kind=%s label=%q outcome=%s reproduced=%v\n", rf.Entry, rf.Kind, rf.Label, o.outcome, o.reproduced)
 	if o.reproduced {
 		return 1
